@@ -53,6 +53,15 @@ def run_shared(prop, invs, tier, seed, level_note, with_d=False):
                                 f"Cli.tla: the transcription itself breaks {f['model']}", f)
                 elif not f["asmodel"]:
                     v.drift += 1
+            if tier == "thorough":
+                # the transcription alone over the whole product of the flag dimensions
+                mrecs, mfails, mstates = cliuni.evaluate_model(sd)
+                for idx, f in mfails:
+                    v.violation(f"cli-model:{','.join(sorted(f['model']))}:{json.dumps(mrecs[idx]['f'], sort_keys=True)}",
+                                f"Cli.tla: the transcription itself breaks {f['model']} for "
+                                f"{mrecs[idx]['f']}", f)
+                suite_cov["cli_model_combinations"] = len(mrecs)
+                cstates += mstates
             suite_cov["cli_combinations"] = len(crecs)
             suite_cov["cli_states"] = cstates
     for ob, inv in fails:
